@@ -5,10 +5,10 @@ What is modelled (C anchors in brackets; line numbers are those of /repo at the 
 correspondence check does not rely on them, it compares the *ordered list of calls* made by these functions,
 recorded at run time, with `Trace.ran`):
 
-* `main` of gensquashfs [bin/gensquashfs/src/mkfs.c:96-179] and of tar2sqfs [bin/tar2sqfs/src/tar2sqfs.c:9-55]:
+* `main` of gensquashfs [bin/gensquashfs/src/mkfs.c:96-212] and of tar2sqfs [bin/tar2sqfs/src/tar2sqfs.c:9-55]:
   `int status = EXIT_FAILURE` [mkfs.c:98, tar2sqfs.c:14], the sequence of fallible calls each followed by
-  `goto out` / `return EXIT_FAILURE`, the single assignment `status = EXIT_SUCCESS` [mkfs.c:170, tar2sqfs.c:49]
-  and `out: sqfs_writer_cleanup(&sqfs, status)` [mkfs.c:172, tar2sqfs.c:51].
+  `goto out` / `return EXIT_FAILURE`, the single assignment `status = EXIT_SUCCESS` [mkfs.c:202, tar2sqfs.c:49]
+  and `out: sqfs_writer_cleanup(&sqfs, status)` [mkfs.c:204, tar2sqfs.c:51].
 * `pack_files` [mkfs.c:55-94] (chdir into the pack directory, then per file: path reconstruction, `pack_file`)
   and `process_tarball` [bin/tar2sqfs/src/process_tarball.c:147-246] (per entry: `it->next`, `it->read_link` for
   links, `set_root_attribs` / `create_node_and_repack_data` unless the entry is filtered out by --root-becomes).
@@ -26,7 +26,7 @@ A run is a walk over the *fallible call sites* (`Site`) in program order.  A fau
 entry per executed site, missing entries = no fault) says which sites report failure.  What a site does when
 it fails is its `Reaction`.  `Variant` selects the source that is modelled:
 
-  `Variant.current`  = /repo as it is now (HEAD 7b8be86).  Every result of the skeleton is tested, a failing
+  `Variant.current`  = /repo as it is now (HEAD d69b61b).  Every result of the skeleton is tested, a failing
                        `sqfs_writer_init` removes the output file, and — since b5ce20d — `main` of gensquashfs
                        resolves the output name with `realpath` right after `sqfs_writer_init` when a pack
                        directory is given (fallible site `realpathOut`) and the cleanup unlinks that absolute
@@ -182,7 +182,7 @@ structure Variant where
   exportChecked : Bool      -- the result of add_export_table_entry(root) is returned    (in /repo since C13-export-table-result)
   sparseTailChecked : Bool  -- backend.c: set_block_size result for an all-zero tail     (in /repo since C13-sparse-tail-result; block processor layer)
   outPathAbsolute : Bool    -- mkfs.c:110-127 realpath of the output name                (in /repo since b5ce20d)
-  stdoutChecked : Bool      -- rdsquashfs.c: fflush/ferror of stdout tested before exit 0 (fixes/C13-check-stdout-errors.patch, NOT in /repo yet)
+  stdoutChecked : Bool      -- rdsquashfs.c: fflush/ferror of stdout tested before exit 0 (fixes/C13-check-stdout-errors.patch; pending)
   deriving Repr, DecidableEq
 
 def Variant.snapshot : Variant := ⟨false, false, false, false, false⟩
@@ -291,7 +291,7 @@ def tarSites : List TarEnt → Nat → List Site
   | e :: rest, i =>
     .tarNext i :: ((if e.link then [.tarReadLink i] else []) ++ (if e.skipped then [] else [.tarEntry i]) ++ tarSites rest (i + 1))
 
-/-- mkfs.c:110-165 / tar2sqfs.c:40-44 -/
+/-- mkfs.c:110-197 / tar2sqfs.c:40-44 -/
 def bodySites (v : Variant) (c : Cfg) : List Site :=
   match c.tool with
   | .gensquashfs =>
@@ -351,19 +351,19 @@ def run (v : Variant) (c : Cfg) (fs : List Bool) : Result :=
   match runSites v c 0 (preSites c) fs {} with
   | (false, _, t) => ⟨status, .never, false, false, none, t⟩
   | (true, fs, t) =>
-  -- if (sqfs_writer_init(&sqfs, &cfg)) return EXIT_FAILURE / goto out_it;   mkfs.c:107  tar2sqfs.c:37
+  -- if (sqfs_writer_init(&sqfs, &cfg)) return EXIT_FAILURE / goto out_it;   mkfs.c:108  tar2sqfs.c:37
   match runSites v c 0 (initSites c) fs t with
   | (false, _, t) => ⟨status, (afterFailedInit v c t).1, false, false, (afterFailedInit v c t).2, t⟩
   | (true, fs, t) =>
-  -- every failing call of the body does `goto out`                          mkfs.c:110-165  tar2sqfs.c:40-44
+  -- every failing call of the body does `goto out`                          mkfs.c:110-197  tar2sqfs.c:40-44
   match runSites v c 0 (bodySites v c) fs t with
   | (false, _, t) => ⟨status, (cleanup c status t).1, true, false, (cleanup c status t).2, t⟩
   | (true, fs, t) =>
-  -- if (sqfs_writer_finish(&sqfs, &cfg)) goto out;                          mkfs.c:167  tar2sqfs.c:46
+  -- if (sqfs_writer_finish(&sqfs, &cfg)) goto out;                          mkfs.c:199  tar2sqfs.c:46
   match runSites v c 0 (finishSites c) fs t with
   | (false, _, t) => ⟨status, (cleanup c status t).1, true, false, (cleanup c status t).2, t⟩
   | (true, _, t) =>
-  -- status = EXIT_SUCCESS;  out: sqfs_writer_cleanup(&sqfs, status);        mkfs.c:170-172  tar2sqfs.c:49-51
+  -- status = EXIT_SUCCESS;  out: sqfs_writer_cleanup(&sqfs, status);        mkfs.c:202-204  tar2sqfs.c:49-51
   let status := 0
   ⟨status, (cleanup c status t).1, true, true, (cleanup c status t).2, t⟩
 
